@@ -7,6 +7,8 @@ import DateutilVerif.Proofs.RRuleStrRound
 namespace RRuleStr
 open ICal (isSpace upper splitOnChar pyInt rstrip strip isDigit splitLines)
 
+variable {po : ParseOpts}
+
 /-! ### zero-padded numbers and the compact date form -/
 
 theorem showNat_length_le : ∀ (k n : Nat), 1 ≤ k → n < 10 ^ k → (showNat n).length ≤ k
@@ -132,7 +134,7 @@ theorem splitColon1_two (a b : List Char) (h : ':' ∉ a) : ICal.splitColon1 (a 
 /-! ### the two lines of `str(rule)` through the property dispatch -/
 
 theorem stepLine_dtstart (acc : Acc) (v : List Char) (hv : ',' ∉ v) :
-    stepLine acc (lit "DTSTART" ++ ':' :: v) = .ok { acc with dtstart := some (v, []) } := by
+    stepLine po acc (lit "DTSTART" ++ ':' :: v) = .ok { acc with dtstart := some (v, [], po) } := by
   have h1 : (lit "DTSTART" ++ ':' :: v).isEmpty = false := rfl
   have h2 : (lit "DTSTART" ++ ':' :: v).contains ':' = true := by rw [contains_iff]; simp
   have h3 := splitColon1_two (lit "DTSTART") v (by decide)
@@ -143,7 +145,7 @@ theorem stepLine_dtstart (acc : Acc) (v : List Char) (hv : ',' ∉ v) :
   simp [lit, dateParmsOk, h5, bind, Except.bind]
 
 theorem stepLine_rrule (acc : Acc) (v : List Char) :
-    stepLine acc (lit "RRULE" ++ ':' :: v) = .ok { acc with rrulevals := acc.rrulevals ++ [v] } := by
+    stepLine po acc (lit "RRULE" ++ ':' :: v) = .ok { acc with rrulevals := acc.rrulevals ++ [v] } := by
   have h1 : (lit "RRULE" ++ ':' :: v).isEmpty = false := rfl
   have h2 : (lit "RRULE" ++ ':' :: v).contains ':' = true := by rw [contains_iff]; simp
   have h3 := splitColon1_two (lit "RRULE") v (by decide)
@@ -206,34 +208,36 @@ theorem getLast?_append_cons_ne (a r : List Char) (s : Char) (h : r ≠ []) : (a
 theorem toStr_none (x : StrIn) (ht : x.dtstart = none) : toStr x = rruleLineOf x := by
   unfold toStr dtstartLines; rw [ht]; rfl
 
-theorem needFreq_argsOf (x : StrIn) : needFreq (argsOf x) = .ok (argsOf x) := rfl
+theorem needFreq_argsOf (x : StrIn) : needFreq (argsOf po x) = .ok (argsOf po x) := rfl
 
-theorem buildRule_body (x : StrIn) (hx : Printable x) (dt : Option (List Char × List (List Char))) :
-    buildRule (rruleBody x) dt = .ok (.rule (argsOf x) dt) := by
+theorem buildRule_body (x : StrIn) (hx : Printable x) (dt : Option DateV) (cache : Bool) :
+    buildRule po (rruleBody x) dt cache = .ok (.rule (argsOf po x) dt cache) := by
   unfold buildRule ruleOf
   rw [parseRRuleLine_body x hx]; rfl
 
-theorem buildRule_line (x : StrIn) (hx : Printable x) (dt : Option (List Char × List (List Char))) :
-    buildRule (rruleLineOf x) dt = .ok (.rule (argsOf x) dt) := by
+theorem buildRule_line (x : StrIn) (hx : Printable x) (dt : Option DateV) (cache : Bool) :
+    buildRule po (rruleLineOf x) dt cache = .ok (.rule (argsOf po x) dt cache) := by
   unfold buildRule ruleOf
   rw [parseRRuleLine_rruleLineOf x hx]; rfl
 
 theorem rruleLineOf_ne_nil (x : StrIn) : rruleLineOf x ≠ [] := by rw [rruleLineOf_eq]; simp [lit]
 
 /-- two lines, no forceset: the rule branch when the collected lines do not ask for a set -/
-theorem parseLines_two_rule (s l1 l2 v : List Char) (rest : List (List Char)) (acc : Acc) (kw : Bool)
-    (hfold : [l1, l2].foldlM stepLine {} = .ok acc) (hw : wantsSet false acc = false) (hv : acc.rrulevals = v :: rest) :
-    parseLines s [l1, l2] false false kw = buildRule v acc.dtstart := by
+theorem parseLines_two_rule (s l1 l2 v : List Char) (rest : List (List Char)) (acc : Acc) (kw cache : Bool)
+    (hfold : [l1, l2].foldlM (stepLine po) {} = .ok acc) (hw : wantsSet false acc = false) (hv : acc.rrulevals = v :: rest) :
+    parseLines po cache s [l1, l2] false false kw = buildRule po v acc.dtstart cache := by
   unfold parseLines
   rw [if_neg (by simp), hfold]
   show (if wantsSet false acc = true then _ else _) = _
   rw [if_neg (by rw [hw]; simp)]
   simp only [hv]
 
-/-- `rrulestr(str(rule))`, no options: the two-line text of a rule with a start parses to a single rule with exactly the
-    printed arguments and the DTSTART text -/
-theorem parseRfc_toStr (x : StrIn) (hx : Printable x) (t : Nat × Nat × Nat × Nat × Nat × Nat) (ht : x.dtstart = some t) :
-    parseRfc (toStr x) {} = .ok (.rule (argsOf x) (some (showDT t, []))) := by
+/-- `rrulestr(str(rule), ignoretz=…, tzinfos=…, cache=…)` without unfold / forceset / compatible: the two-line text of a
+    rule with a start parses to a single rule with exactly the printed arguments and the DTSTART text; the UNTIL and
+    DTSTART values carry the options passed, the rule gets `cache` -/
+theorem parseRfc_toStr (x : StrIn) (hx : Printable x) (t : Nat × Nat × Nat × Nat × Nat × Nat) (ht : x.dtstart = some t)
+    (o : Opts) (hu : o.unfold = false) (hf : o.forceset = false) (hc : o.compatible = false) (kw : Bool) :
+    parseRfc (toStr x) o kw = .ok (.rule (argsOf o.po x) (some (showDT t, [], o.po)) o.cache) := by
   have hD := dtstartLine_chars t
   have hR := rruleLineOf_chars x hx
   have hchars : ∀ c ∈ toStr x, isLower c = false := by
@@ -256,39 +260,39 @@ theorem parseRfc_toStr (x : StrIn) (hx : Printable x) (t : Nat × Nat × Nat × 
     rw [toStr_some x t ht]
     exact splitWs_two _ _ (by simp [dtstartLine, lit]) (rruleLineOf_ne_nil x)
       (fun c hc => isLineC_not_space c (hD c hc)) (fun c hc => isLineC_not_space c (hR c hc))
-  have hfold : [dtstartLine t, rruleLineOf x].foldlM stepLine {} =
-      .ok { rrulevals := [rruleBody x], dtstart := some (showDT t, []) } := by
+  have hfold : [dtstartLine t, rruleLineOf x].foldlM (stepLine o.po) {} =
+      .ok { rrulevals := [rruleBody x], dtstart := some (showDT t, [], o.po) } := by
     rw [List.foldlM_cons, dtstartLine, stepLine_dtstart _ _ (fun h => isAtom_ne_comma _ (showDT_atoms t _ h) rfl)]
-    show List.foldlM stepLine _ [rruleLineOf x] = _
+    show List.foldlM (stepLine o.po) _ [rruleLineOf x] = _
     rw [List.foldlM_cons, rruleLineOf_eq, stepLine_rrule]
     rfl
   unfold parseRfc
-  simp only [hup, hstrip, hne, Bool.false_eq_true, if_false]
-  have hl : linesOf (toStr x) (({} : Opts).unfold || ({} : Opts).compatible) = [dtstartLine t, rruleLineOf x] := hlines
-  rw [hl]
-  rw [show ((({} : Opts).forceset || ({} : Opts).compatible)) = false from rfl,
-    parseLines_two_rule _ _ _ (rruleBody x) [] _ _ hfold (by simp [wantsSet]) rfl]
-  exact buildRule_body x hx _
+  simp only [hup, hstrip, hne, Bool.false_eq_true, if_false, hu, hf, hc, Bool.or_false]
+  have hl : linesOf (toStr x) false = [dtstartLine t, rruleLineOf x] := hlines
+  rw [hl, parseLines_two_rule _ _ _ (rruleBody x) [] _ _ _ hfold (by simp [wantsSet]) rfl]
+  exact buildRule_body x hx _ _
 
-theorem linesOf_default (s : List Char) : linesOf s (({} : Opts).unfold || ({} : Opts).compatible) = splitWs s := rfl
+theorem linesOf_false (s : List Char) : linesOf s false = splitWs s := rfl
 
-/-- the same for a rule printed without a DTSTART line (`_dtstart` falsy; never the case for a constructed rule) -/
-theorem parseRfc_toStr_none (x : StrIn) (hx : Printable x) (ht : x.dtstart = none) :
-    parseRfc (toStr x) {} = .ok (.rule (argsOf x) none) := by
+/-- the same for a rule printed without a DTSTART line (`_dtstart` falsy; never the case for a constructed rule): this is
+    the single-line fast path of `_parse_rfc` -/
+theorem parseRfc_toStr_none (x : StrIn) (hx : Printable x) (ht : x.dtstart = none)
+    (o : Opts) (hu : o.unfold = false) (hf : o.forceset = false) (hc : o.compatible = false) (kw : Bool) :
+    parseRfc (toStr x) o kw = .ok (.rule (argsOf o.po x) none o.cache) := by
   have hR := rruleLineOf_chars x hx
   rw [toStr_none x ht]
   have hup : upper (rruleLineOf x) = rruleLineOf x := upper_of_noLower _ (fun c hc => isLineC_not_lower c (hR c hc))
   have hstrip : strip (rruleLineOf x) = rruleLineOf x := strip_of_noSpace _ (fun c hc => isLineC_not_space c (hR c hc))
   have hne : (rruleLineOf x).isEmpty = false := rfl
-  have hl : linesOf (rruleLineOf x) (({} : Opts).unfold || ({} : Opts).compatible) = [rruleLineOf x] := by
-    rw [linesOf_default]
+  have hl : linesOf (rruleLineOf x) false = [rruleLineOf x] := by
+    rw [linesOf_false]
     exact splitWs_one _ (rruleLineOf_ne_nil x) (fun c hc => isLineC_not_space c (hR c hc))
   have hsw : startsWith (rruleLineOf x) (lit "RRULE:") = true := by simp [startsWith, rruleLineOf_eq, lit]
   unfold parseRfc
-  simp only [hup, hstrip, hne, Bool.false_eq_true, if_false]
+  simp only [hup, hstrip, hne, Bool.false_eq_true, if_false, hu, hf, hc, Bool.or_false]
   rw [hl]
   unfold parseLines
   rw [if_pos (by simp [hsw])]
-  exact buildRule_line x hx none
+  exact buildRule_line x hx none _
 
 end RRuleStr
